@@ -97,6 +97,10 @@ func (w *World) exprRoot(fi *FuncInfo, fd *funcDefs, e ast.Expr, depth int) stri
 		sig := info.Defs[fi.Decl.Name].Type().(*types.Signature)
 		for i := 0; i < sig.Params().Len(); i++ {
 			if sig.Params().At(i) == v {
+				// a parameter of a new helper stands for what its (first) call site passes
+				if sites, exprs, ok := w.argsBoundTo(v); ok && len(sites) > 0 && depth < 6 {
+					return w.exprRoot(sites[0].Fi, w.defsOf(sites[0].Fi), exprs[0], depth+1)
+				}
 				return "param:" + v.Name()
 			}
 		}
@@ -692,7 +696,9 @@ func checkDiagOperands(c *Ctx, r *Report) {
 		n := 0
 		attrMethods := map[string]int{} // method -> index of its Attribute parameter
 		for k, mfi := range w.Funcs {
-			if !strings.HasPrefix(k, "(core/validators.AnnotationLinkValidator).") || mfi.Obj == nil {
+			// (its methods - or the plain functions of the package they were turned into)
+			isOwn := strings.HasPrefix(k, "(core/validators.AnnotationLinkValidator).") || (strings.HasPrefix(k, "core/validators.") && w.isNewName(k))
+			if !isOwn || mfi.Obj == nil {
 				continue
 			}
 			sig := mfi.Obj.Type().(*types.Signature)
@@ -708,7 +714,7 @@ func checkDiagOperands(c *Ctx, r *Report) {
 		}) {
 			fnk := fnShort(cl.Parent())
 			fi := w.fn(fnk)
-			if fi == nil {
+			if fi == nil || !strings.Contains(fnk, "core/validators.AnnotationLinkValidator)") {
 				continue
 			}
 			var call *ast.CallExpr
